@@ -1,5 +1,4 @@
-//go:build verif
-
+//go:build verif && verif_c01
 // Verification hooks for property C01 (save then open preserves observables):
 // a complete canonical dump of a worksheet's <sheetData> representation, and
 // wrappers that run the unexported save-time trim and open-time re-densify
